@@ -76,11 +76,16 @@ def render(case, k):
                 f = {"path": path, "named": True, "symlink": "gone%d.circom" % i}
         elif ff == "badpragma":
             f["text"] = text.replace("pragma circom 2.0.0;", "pragma circom %s;" % PRAGMAS[(k + i) % len(PRAGMAS)])
+        elif ff == "syntax" and (k + i) % 5 == 4:
+            # two version pragmas, the unsupported one first: the file is rejected (as a syntax error, or as demanding an
+            # unsupported version), never accepted on the strength of the last pragma
+            f["text"] = text.replace("pragma circom 2.0.0;", "pragma circom 2.9.9;\npragma circom 2.0.0;")
+            faults.append("pragmas@%s" % path)
         elif ff == "syntax":
             toks = tokens(text)
             s, e = toks[(k * 7 + i) % len(toks)]
             f["text"] = text[:s] + "@" + text[e:]
-        if ff != "none":
+        if ff != "none" and not (ff == "syntax" and (k + i) % 5 == 4):
             faults.append("%s@%s" % (ff, path))
         if df != "none":
             faults.append("%s@%s" % (df, path))
@@ -114,11 +119,11 @@ def classify(ev, paths):
         else:
             out += ["missing@%s" % file, "unreadable@%s" % file]
     elif idc == "P1003" and "not supported by Circomspect" in msg:
-        out.append("badpragma@%s" % file)
+        out += ["badpragma@%s" % file, "pragmas@%s" % file]
     elif idc == "P1002":
         out.append("mains@-")
     elif idc == "P1000" and loc:
-        out.append("syntax@%s" % file)
+        out += ["syntax@%s" % file, "pragmas@%s" % file]
     elif idc == "TAC02" and loc:
         out.append("tuple@%s" % file)
     elif idc == "TAC01" and loc:
